@@ -3,7 +3,7 @@ import GqlModel.Validate.Engine
 namespace Gql.Validate.Rules
 open Gql Gql.Validate
 
-def knownRootTypeStep (s : Schema) (_ : QueryDoc) (e : Event) : Except Bytes (List RErr) :=
+def knownRootTypeStep (s : SV) (_ : QueryDoc) (e : Event) : Except Bytes (List RErr) :=
   match e.p with
   | .operation op _ =>
     if op.op == opQuery || op.op == [] || op.op == opMutation || op.op == opSubscription then
